@@ -181,13 +181,13 @@ def check(repo: Repo, run: Run) -> None:
         return "\n".join(ast.unparse(s) for s in body)
     if "map" in branches:
         s = src(branches["map"])
-        run.ob("C09.K6", "interp map", "map(sub_expr, member_list)" in s and "ListType(" in s, "map: one result per element, in order (ListType(map(f, list)))", ev.loc(mda))
+        run.shape("C09.K6", "interp map", "map(sub_expr, member_list)" in s and "ListType(" in s, "map: one result per element, in order (ListType(map(f, list)))", ev.loc(mda))
     if "filter" in branches:
         s = src(branches["filter"])
-        run.ob("C09.K6", "interp filter", "filter(sub_expr, member_list)" in s and "ListType(" in s, "filter: order-preserving subsequence of the elements (ListType(filter(p, list)))", ev.loc(mda))
+        run.shape("C09.K6", "interp filter", "filter(sub_expr, member_list)" in s and "ListType(" in s, "filter: order-preserving subsequence of the elements (ListType(filter(p, list)))", ev.loc(mda))
     if "exists_one" in branches:
         s = src(branches["exists_one"])
-        run.ob("C09.K6", "interp exists_one", "count == 1" in s and "for value in member_list" in s, "exists_one: counts the satisfying elements and compares with 1", ev.loc(mda))
+        run.shape("C09.K6", "interp exists_one", "count == 1" in s and "for value in member_list" in s, "exists_one: counts the satisfying elements and compares with 1", ev.loc(mda))
     for fname, needles in (("macro_map", ["ListType(map(cel_expr, activations))"]), ("macro_filter", ["if bool(f):", "r.append("]),
                            ("macro_exists_one", ["count == 1"])):
         fn = ev.func(fname)
@@ -202,5 +202,5 @@ def check(repo: Repo, run: Run) -> None:
     for fname in ("macro_map", "macro_filter", "macro_exists_one", "macro_exists", "macro_all"):
         fn = ev.func(fname)
         s = ast.unparse(fn)
-        run.ob("C09.K6", f"{fname}|binding", "nested_activation(vars={bind_variable:" in s and "cel_gen(activation)" in s,
+        run.shape("C09.K6", f"{fname}|binding", "nested_activation(vars={bind_variable:" in s and "cel_gen(activation)" in s,
                f"{fname} binds each element of cel_gen(activation) to the iteration variable in a nested activation", ev.loc(fn))
